@@ -967,3 +967,133 @@ Proof.
   intros k Hk. apply H3 in Hk as [Hk|Hk]; auto. left.
   eapply merge_strict; eauto. congruence.
 Qed.
+
+(* ================================================================ spellings of a request_uri
+   The store is keyed by the exact string that was issued.  A request_uri that is not, character for character,
+   a key of the store (another letter case, surrounding whitespace, a fragment, percent-escapes ...) resolves
+   nothing and consumes nothing; over a whole history the successful redemptions are bounded by the pushes. *)
+Lemma modelled_no_ru c : claims_modelled c = true -> assoc k_request_uri c = None.
+Proof.
+  unfold claims_modelled. intro H. repeat (apply andb_true_iff in H as [H ?]).
+  apply has_key_false.
+  match goal with Hx : negb (has_key k_request_uri c) = true |- _ => now apply negb_true_iff in Hx end.
+Qed.
+
+Definition ru_unknown (st : state) (p : params) : Prop :=
+  forall ru, assoc k_request_uri p = Some (PS_ ru) -> ~ In ru (db_keys st).
+
+Lemma dru_unknown g d st r cid st' o via :
+  do_request_uri g d st r cid = (st', o, via) -> ru_unknown st (r_params r) ->
+  st' = st /\ via = None /\
+  forall r', o = Acc r' -> assoc k_request_uri (r_params r') = assoc k_request_uri (r_params r).
+Proof.
+  intros H Hu. dru_cases H;
+    try (exfalso;
+         match goal with
+         | Hr : assoc k_request_uri (r_params r) = Some (PS_ ?ru), Ha : assoc ?ru (par_db st) = Some _ |- _ =>
+             apply (Hu _ Hr); unfold db_keys; eapply assoc_in_keys; exact Ha
+         end);
+    (split; [reflexivity|]); (split; [reflexivity|]); intros r' Hr'; try discriminate;
+    try (inversion Hr'; subst; assumption).
+  apply reverify_acc in Hr'. subst r'. cbn [r_params]. rewrite update_other; [assumption|]. apply modelled_no_ru.
+  match goal with Hf : from_jwt _ _ _ = FOk ?v |- _ => apply from_jwt_vr_ok in Hf; apply Hf end.
+Qed.
+
+Lemma rh_unknown g d cid : forall hs st r via st' o via',
+  run_hooks g d hs st r cid via = (st', o, via') -> ru_unknown st (r_params r) ->
+  st' = st /\ (via' = via \/ via' = None).
+Proof.
+  induction hs as [|h rest IH]; intros st r via st' o via' H Hu; cbn in H.
+  - inversion H; subst. auto.
+  - destruct h.
+    + destruct (do_request_uri g d st r cid) as [[st1 o1] v1] eqn:E.
+      destruct (dru_unknown _ _ _ _ _ _ _ _ E Hu) as [E1 [E2 Hk]]. subst st1 v1.
+      destruct o1; try (inversion H; subst; split; auto; fail).
+      apply IH in H; auto. intros ru Hru. apply Hu. rewrite <- (Hk _ eq_refl). exact Hru.
+    + destruct (par_request_uri r) eqn:E; try (inversion H; subst; split; auto; fail).
+      apply par_request_uri_acc in E. subst. apply IH in H; auto.
+    + destruct (post_parse g r cid) as [r1| | | |] eqn:E; try (inversion H; subst; split; auto; fail).
+      apply post_parse_acc in E as [c [ci [u [_ [_ [_ [-> _]]]]]]].
+      apply IH in H; auto. intros ru Hru. apply Hu. cbn [r_params] in Hru.
+      rewrite assoc_aset_other in Hru; auto. apply k_ru_ne_redirect.
+    + inversion H; subst. auto.
+Qed.
+
+Lemma authz_parse_cases_ru g d st outer w st' o via :
+  authz_parse g d st outer w = (st', o, via) ->
+  (st' = st /\ via = None) \/
+  (exists p cid r1, verify_authz g p w = Acc r1 /\ run_hooks g d (hooks g) st r1 cid None = (st', o, via)
+                    /\ assoc k_request_uri p = assoc k_request_uri outer).
+Proof.
+  unfold authz_parse. intro H.
+  destruct (authn_loop g (methods g) outer w) as [c m| | |t| |].
+  - match type of H with context [verify_authz g ?p w] => destruct (verify_authz g p w) eqn:E end;
+      try (left; inversion H; subst; split; auto; fail).
+    right. eexists _, _, _. split; [exact E|]. split; [exact H|].
+    destruct m; repeat rewrite assoc_aset_other; auto using k_ru_ne_client, k_ru_ne_auth.
+  - destruct (methods_configured g).
+    + left. inversion H; subst. auto.
+    + match type of H with context [verify_authz g ?p w] => destruct (verify_authz g p w) eqn:E end;
+        try (left; inversion H; subst; split; auto; fail).
+      right. eexists _, _, _. split; [exact E|]. split; [exact H|reflexivity].
+  - match type of H with context [verify_authz g ?p w] => destruct (verify_authz g p w) eqn:E end;
+      try (left; inversion H; subst; split; auto; fail).
+    right. eexists _, _, _. split; [exact E|]. split; [exact H|reflexivity].
+  - left. inversion H; subst. auto.
+  - left. inversion H; subst. auto.
+  - left. inversion H; subst. auto.
+Qed.
+
+Lemma merge_ru_outer g p w r :
+  merge_obj true g p w = Acc r ->
+  forall x, assoc k_request_uri (r_params r) = Some x -> assoc k_request_uri p = Some x.
+Proof.
+  intros H x Hx. pose proof (merge_obj_ok _ _ _ _ _ H) as [Hok [Hn Hs]].
+  destruct (r_vr r) as [v|] eqn:Ev.
+  - exfalso. destruct (Hok v Ev) as [[Hm _] _].
+    assert (Hk : has_key k_request_uri (r_params r) = true) by (apply has_key_assoc; eauto).
+    pose proof (merge_strict _ _ _ _ _ H Ev _ Hk) as Hc.
+    apply modelled_no_ru in Hm. destruct (has_key_false k_request_uri (v_claims v)) as [_ Hb].
+    rewrite (Hb Hm) in Hc. discriminate.
+  - rewrite (Hn eq_refl) in Hx. exact Hx.
+Qed.
+
+(* an authorization request whose request_uri is not literally a key of the store leaves the store as it is and
+   redeems nothing *)
+Theorem authz_unknown_spelling g d st outer w st' o via :
+  authz_parse g d st outer w = (st', o, via) ->
+  (forall ru, assoc k_request_uri outer = Some (PS_ ru) -> ~ In ru (db_keys st)) ->
+  st' = st /\ via = None.
+Proof.
+  intros H Hu. apply authz_parse_cases_ru in H as [H|[p [cid [r1 [Hver [Hrun Hp]]]]]]; [exact H|].
+  apply verify_authz_acc in Hver.
+  assert (Hu1 : ru_unknown st (r_params r1)).
+  { intros ru Hru. apply Hu. rewrite <- Hp. eapply merge_ru_outer; eauto. }
+  destruct (rh_unknown _ _ _ _ _ _ _ _ _ _ Hrun Hu1) as [E1 [E2|E2]]; auto.
+Qed.
+
+(* every successful redemption presented a request_uri that was issued, and there are at most as many successful
+   redemptions in a history as there are pushes, whatever request_uri strings the authorization requests carry *)
+Theorem par_count g d t0 ops : NoDup (pushed_urns ops) ->
+  (forall u, In u (redeemed (run g d (init t0) ops)) -> In u (pushed_urns ops)) /\
+  (List.length (redeemed (run g d (init t0) ops)) <= List.length (pushed_urns ops))%nat.
+Proof.
+  intro H. destruct (par_once_gen g d ops (init t0)) as [H1 H2];
+    [constructor|exact H|intros u _ Hin; destruct Hin|].
+  assert (Hincl : forall u, In u (redeemed (run g d (init t0) ops)) -> In u (pushed_urns ops)).
+  { intros u Hu. destruct (H2 u Hu) as [Hin|Hin]; [destruct Hin|exact Hin]. }
+  split; [exact Hincl|]. apply NoDup_incl_length; auto.
+Qed.
+
+Theorem par_one_push g d t0 pre post pusher body w u :
+  pushed_urns pre = [] -> pushed_urns post = [] ->
+  (List.length (redeemed (run g d (init t0) (pre ++ OPush pusher body w u :: post))) <= 1)%nat /\
+  (forall x, In x (redeemed (run g d (init t0) (pre ++ OPush pusher body w u :: post))) -> x = u).
+Proof.
+  intros Hpre Hpost.
+  assert (E : pushed_urns (pre ++ OPush pusher body w u :: post) = [u]).
+  { unfold pushed_urns in *. rewrite flat_map_app. cbn [flat_map pushed_urn]. rewrite Hpre, Hpost. reflexivity. }
+  destruct (par_count g d t0 (pre ++ OPush pusher body w u :: post)) as [H1 H2].
+  - rewrite E. constructor; [intros []|constructor].
+  - rewrite E in H1, H2. split; [exact H2|]. intros x Hx. destruct (H1 x Hx) as [<-|[]]. reflexivity.
+Qed.
